@@ -103,7 +103,8 @@ def make_input(path, d, sibling, extra="plain"):
                 "type": "file", "features": ["bright_avg"],
                 "mapping": "same", "paths": [str(sibling), sibling.name]}
         blines = json.dumps(bdef, indent=2).split("\\n")
-        bg.create_dataset("aaaa1111", data=np.array(
+        bg.create_dataset("aaaa1111" if extra != "nonscalar-internal-basin"
+                          else "mmmm1111", data=np.array(
             [x.encode() for x in json.dumps(bdef, indent=2).split("\n")],
             dtype="S200"))
         be = h5.create_group("basin_events")
@@ -121,6 +122,16 @@ def make_input(path, d, sibling, extra="plain"):
                 dtype="S200"))
             ev.create_dataset("basinmap1", data=np.array(
                 [2 * i + 1 for i in range(n)], dtype=np.uint64))
+        if extra == "nonscalar-internal-basin":
+            # its key sorts before the file basin's
+            be.create_dataset("image_bg", data=gen.image([1, 2, 3]))
+            ndef = {"description": "internal image data",
+                    "format": "h5dataset", "name": "intbg",
+                    "type": "internal", "features": ["image_bg"],
+                    "mapping": "basinmap0", "paths": ["basin_events"]}
+            bg.create_dataset("aaaa0000", data=np.array(
+                [x.encode() for x in json.dumps(ndef, indent=2).split("\n")],
+                dtype="S200"))
         idef = {"description": "internal", "format": "h5dataset",
                 "name": "int", "type": "internal", "features": ["userdef1"],
                 "mapping": "basinmap0", "paths": ["basin_events"]}
@@ -157,6 +168,13 @@ def compare(pin, pout, task, stripped, out, first, notcarried=()):
     import h5py
     with h5py.File(pin, "r") as a, h5py.File(pout, "r") as b:
         if task.startswith("condense"):
+            # the definitions of file basins are carried over (they are what
+            # keeps the non-scalar and unstored features reachable)
+            for k in ([] if "basins" in stripped else a.get("basins", {})):
+                txt = "".join(lines_of(a["basins"][k]))
+                if '"type": "file"' in txt and k not in b.get("basins", {}):
+                    out.append(("file basin definition missing after %s"
+                                % task, k))
             return
         for name in a["events"]:
             if name in notcarried:
@@ -218,7 +236,11 @@ def compare(pin, pout, task, stripped, out, first, notcarried=()):
 def compare_dclab(pin, pout, task, stripped, out):
     """through dclab: scalar features (stored, basin-provided, computed)"""
     import dclab
-    with dclab.new_dataset(pin) as a, dclab.new_dataset(pout) as b:
+    # condense without basin features reads the input with basins disabled:
+    # what it promises are the scalar features of THAT view
+    kw = {"enable_basins": False} if task == "condense-no-basin-features" \
+        else {}
+    with dclab.new_dataset(pin, **kw) as a, dclab.new_dataset(pout) as b:
         feats = [f for f in a.features_scalar]
         if "basins" in stripped:
             feats = [f for f in feats if f in a.features_innate
@@ -259,6 +281,9 @@ def run_task(task, pin, pout):
                        strip_basins=task.endswith("basins"))
         elif task == "condense":
             cli.condense(path_in=pin, path_out=pout)
+        elif task == "condense-no-basin-features":
+            cli.condense(path_in=pin, path_out=pout,
+                         store_basin_features=False)
         else:
             cli.condense(path_in=pin, path_out=pout, ancillaries=False,
                          store_ancillary_features=False)
